@@ -445,7 +445,32 @@ def generate(seed, tier):
     return {'label': label, 'is_text': is_text,
             'base': payload if is_text else payload.hex(), 'faults': faults,
             'sizes': sched['sizes'], 'then': sched['then'], 'only': None,
-            'loader': kernel.rng(seed, 'loader').choice(['SafeLoader'] * 4 + ['Loader', 'FullLoader', 'BaseLoader', 'PathLoader', 'PathLoader'])}
+            'loader': kernel.rng(seed, 'loader').choice(['SafeLoader'] * 4 + ['Loader', 'FullLoader', 'BaseLoader', 'PathLoader', 'PathLoader']),
+            'read_fault': read_fault(kernel.rng(seed, 'readfault'))}
+
+
+READ_FAULT_KINDS = ['UnicodeDecodeError', 'UnicodeEncodeError', 'OSError', 'ValueError', 'IndexError', 'KeyError', 'TypeError',
+                    'AttributeError', 'LookupError', 'EOFError', 'AssertionError', 'OverflowError']
+
+
+def read_fault(r):
+    """In an eighth of the cases the stream itself fails at a seeded read() call (a text file opened with the wrong codec, a
+    dropped connection): what reaches the caller must be that very exception or a YAMLError, never a third kind."""
+    if r.random() >= 0.125:
+        return None
+    return {'at': r.choice([0, 1, 1, 2, 2, 3, 4, 6, 10, 25]), 'kind': r.choice(READ_FAULT_KINDS)}
+
+
+def make_read_fault(f):
+    k = f['kind']
+    if k == 'UnicodeDecodeError':
+        return UnicodeDecodeError('utf-8', b'abc\xe9', 3, 4, 'simulated: invalid continuation byte')
+    if k == 'UnicodeEncodeError':
+        return UnicodeEncodeError('ascii', 'ab\xe9', 2, 3, 'simulated')
+    if k == 'OSError':
+        return OSError(5, 'simulated I/O error')
+    return {'ValueError': ValueError, 'IndexError': IndexError, 'KeyError': KeyError, 'TypeError': TypeError, 'AttributeError': AttributeError,
+            'LookupError': LookupError, 'EOFError': EOFError, 'AssertionError': AssertionError, 'OverflowError': OverflowError}[k]('simulated stream failure')
 
 
 def payload_of(case):
@@ -457,7 +482,7 @@ def payload_of(case):
 
 def describe(case):
     units = payload_of(case)
-    return {'label': case['label'], 'is_text': case['is_text'], 'loader': case.get('loader'), 'faults': case['faults'][:5],
+    return {'label': case['label'], 'is_text': case['is_text'], 'loader': case.get('loader'), 'read_fault': case.get('read_fault'), 'faults': case['faults'][:5],
             'delivered_len': len(units), 'delivered_head': repr(units[:80]), 'then': case['then'], 'sizes_head': case['sizes'][:8]}
 
 
@@ -619,7 +644,13 @@ def execute(case):
         for backend, api, via in loads:
             current[0] = (backend, api, via)
             L = loader_for(yaml, case.get('loader') or 'SafeLoader', backend)
-            src = units if via == 'memory' else SimReader(units, case['sizes'], case['then'])
+            injected = None
+            if via == 'stream' and case.get('read_fault'):
+                injected = make_read_fault(case['read_fault'])
+                src = SimReader(units, case['sizes'], case['then'], fault=(case['read_fault']['at'], injected))
+                out['faults']['stream-raises:' + case['read_fault']['kind']] = out['faults'].get('stream-raises:' + case['read_fault']['kind'], 0) + 1
+            else:
+                src = units if via == 'memory' else SimReader(units, case['sizes'], case['then'])
             n_items = 0
             exc = None
             try:
@@ -647,7 +678,13 @@ def execute(case):
             except kernel.Hang:
                 raise
             except Exception as e:
-                cls = 'non-yaml-exception:' + type(e).__name__
+                if e is injected:
+                    # the stream's own exception passing through unchanged (C19's subject) is not a failure of the reader
+                    out['probes']['stream_exception_passed_through'] = out['probes'].get('stream_exception_passed_through', 0) + 1
+                    out['evals'] += 1
+                    logparts.append([backend, api, via, n_items, 'INJECTED'])
+                    continue
+                cls = ('non-yaml-exception:' if injected is None else 'non-yaml-exception-after-stream-failure:') + type(e).__name__
                 if backend == 'c' and has_surrogate and isinstance(e, UnicodeEncodeError):
                     cls = 'K3-c-parser-lone-surrogate'
                 elif backend == 'c' and isinstance(e, UnicodeDecodeError) and bad_uri_escape(units, is_text):
@@ -716,3 +753,7 @@ def shrink(case):
             yield dict(case, base=b.hex())
     if case['sizes']:
         yield dict(case, sizes=[])
+    if case.get('read_fault'):
+        yield dict(case, read_fault=None)
+        if case['read_fault']['at'] > 0:
+            yield dict(case, read_fault=dict(case['read_fault'], at=case['read_fault']['at'] - 1))
